@@ -117,7 +117,7 @@ func (s Sort) smt(m Mode) string {
 	case KStruct:
 		return "S_" + s.Name
 	case KFloat:
-		return fmt.Sprintf("Float%d", s.W)
+		return fmt.Sprintf("GoF%d", s.W)
 	case KOpaque:
 		return "O_" + s.Name
 	case KArray:
@@ -388,6 +388,9 @@ func solve(query string, timeoutS int, all bool, useCvc5 bool) (SolveResult, err
 			cmd.Run()
 			out := buf.String()
 			first := strings.TrimSpace(strings.SplitN(out, "\n", 2)[0])
+			if strings.HasPrefix(first, "(error") && !strings.Contains(first, "model is not available") {
+				first = "error"
+			}
 			v := VUnknown
 			switch first {
 			case "unsat":
@@ -400,12 +403,16 @@ func solve(query string, timeoutS int, all bool, useCvc5 bool) (SolveResult, err
 	}
 	res := SolveResult{Verdict: VUnknown, All: map[string]string{}}
 	got := 0
+	nerr := 0
 	decided := false
 	var errDis error
 	for got < n {
 		o := <-ch
 		got++
 		res.All[o.name] = strings.TrimSpace(strings.SplitN(o.out, "\n", 2)[0])
+		if strings.HasPrefix(res.All[o.name], "(error") {
+			nerr++
+		}
 		if o.v != VUnknown {
 			if decided && res.Verdict != o.v {
 				errDis = fmt.Errorf("solver disagreement: %s says %s, %s says %s", res.Solver, res.Verdict, o.name, o.v)
@@ -422,6 +429,9 @@ func solve(query string, timeoutS int, all bool, useCvc5 bool) (SolveResult, err
 			res.Output = o.out
 			res.Time = o.t
 		}
+	}
+	if !decided && nerr == n {
+		return res, fmt.Errorf("every solver rejected the query: %s", strings.TrimSpace(strings.SplitN(res.Output, "\n", 2)[0]))
 	}
 	return res, errDis
 }
